@@ -100,12 +100,32 @@ def _run_base(ctx):
                 ctx.inst('R11.2', fid, repo.norm(repo.stmt_of(c)), False,
                          'a differ builds a patch entry directly, bypassing the non-empty check of the builders', c)
     pp = repo.func(mf.DEC + ':push_patch_decision')
-    for c in calls_in(pp, nested=False):
-        if ('func', 'nbdime.diff_format:op_patch') in cg.resolve(c.func, pp):
-            par = repo.parent(repo.parent(c))
-            ok = isinstance(par, ast.IfExp) and dotted(par.test) == dotted(c.args[1])
-            ctx.inst('R11.2', mf.DEC + ':push_patch_decision', repo.norm(par if isinstance(par, ast.IfExp) else c), ok,
-                     'wraps only a non-empty diff' if ok else 'an empty diff gets wrapped into a patch entry', c)
+    wrappers = {('func', 'nbdime.diff_format:op_patch'), ('func', mf.DEC + ':push_path')}
+    n_wrap = 0
+    for c in calls_in(pp, nested=True):
+        owner = repo.func_of(c) or pp
+        if not (wrappers & set(cg.resolve(c.func, owner))) or len(c.args) < 2:
+            continue
+        n_wrap += 1
+        x = c.args[1]
+        xs = ast.unparse(x)
+        tests = []
+        p, child = repo.parent(c), c
+        while p is not None and p is not pp:
+            if isinstance(p, ast.IfExp):
+                if child is p.body:
+                    tests.append((p.test, True))
+                elif child is p.orelse:
+                    tests.append((p.test, False))
+            child, p = p, repo.parent(p)
+        gfn = owner if owner is not None else pp
+        tests.extend(cond_guards(CFG(gfn), repo.stmt_of(c)))
+        ok = any(truth_under(t, pol, lambda e: ast.unparse(e) == xs) is True for t, pol in tests)
+        ctx.inst('R11.2', mf.DEC + ':push_patch_decision', repo.norm(repo.stmt_of(c))[:140], ok,
+                 'wraps only a non-empty diff (truthiness of %s tested)' % xs if ok else
+                 '%s is wrapped into nested patch entries without a test that it is non-empty: a side that made no change ([]) becomes `patch(key, [])`' % xs, c)
+    if n_wrap == 0:
+        raise AnalysisError('push_patch_decision: no wrapping of diffs into patch entries found')
     # ---------------------------------------------------------------- R11.5 a nested patch is keyed by the base index of the item it was computed from
     for fid in ('nbdime.diffing.generic:diff_lists', 'nbdime.diffing.snakes:compute_diff_from_snakes'):
         fn = repo.func(fid)
@@ -244,8 +264,46 @@ def _ok_result(repo, cg, fn, e, defs, differset, seen):
     return False
 
 
+def add_or_replace_by_membership(ctx, rule):
+    """Where code chooses between `add K` and `replace K` for the same key K, the choice must be made by membership of K in
+    the base object: an addition has to name an absent key, a replacement a present one.  A truthiness/`.get()` test sends a
+    key that is present with a falsy value ({} / '' / 0 / None) down the `add` arm."""
+    repo, cg = ctx.repo, ctx.cg
+    n = 0
+    for fid, fn in sorted(repo.functions.items()):
+        if not fid.startswith('nbdime.'):
+            continue
+        for node in walk_no_nested(fn):
+            if not (isinstance(node, ast.If) and node.orelse):
+                continue
+            def first_args(block, opname):
+                out = []
+                for st in block:
+                    for c in calls_in(st):
+                        if isinstance(c.func, ast.Name) and c.func.id == opname and c.args:
+                            out.append(ast.unparse(c.args[0]))
+                return out
+            for a_blk, r_blk, add_when in ((node.body, node.orelse, True), (node.orelse, node.body, False)):
+                adds, reps = first_args(a_blk, 'op_add'), first_args(r_blk, 'op_replace')
+                common = [k for k in adds if k in reps]
+                if not common:
+                    continue
+                k = common[0]
+                n += 1
+                t = node.test
+                ok = isinstance(t, ast.Compare) and len(t.ops) == 1 and ast.unparse(t.left) == k and \
+                    ((isinstance(t.ops[0], ast.NotIn) and add_when) or (isinstance(t.ops[0], ast.In) and not add_when))
+                ctx.inst(rule, fid, 'if %s: ... add/replace %s' % (repo.norm(t), k), ok,
+                         'add is chosen exactly when the key is absent' if ok else
+                         'the choice between add and replace of %s is not made by `%s in <base>`: a key present with a falsy value gets an `add` entry '
+                         '(an addition naming a present key; applying it raises)' % (k, k), node)
+    return n
+
+
 def run(ctx):
+    ctx.rule('R11.9', 'add vs replace of one key is decided by membership of the key in the base object', floor=3)
     ctx.rule('R11.7', 'the differs and diff utilities never test a diff key by truthiness', floor=8)
     _run_base(ctx)
     from ..keys import key_truthiness
     key_truthiness(ctx, 'R11.7', ['nbdime.diffing.', 'nbdime.diff_format', 'nbdime.diff_utils', 'nbdime.patching'], 'an entry at index 0 / key "" is dropped or mis-ordered')
+    add_or_replace_by_membership(ctx, 'R11.9')
